@@ -28,7 +28,7 @@ func VerifC09_Propagation() {
 	case 1: // store closed by a concurrent shutdown of the store (entry still registered)
 		w.entryFor(url1).CRLStore.Close()
 	case 2: // record corrupted
-		d := verifrt.Disk[filepath.Join("/work", "h-h-"+url1)]
+		d := verifrt.Disk[filepath.Join("/work", idOfCDP(url1))]
 		garbage := [][]byte{{}, {0x30}, {0xEE}}[verifrt.Choose(3)]
 		for i := range d.KV {
 			d.KV[i].V = garbage
